@@ -250,8 +250,8 @@ theorem headerT_no_panic (hdrLen : Nat) (h : 5 ≤ hdrLen) (raw : Bytes) (hr : h
   unfold headerT
   orun
 
-theorem splitD_no_panic (hdrLen maxCiphertext : Nat) (h : 13 ≤ hdrLen) (haveVers : Bool) (vers : Nat) (buf : Bytes) :
-    splitD hdrLen maxCiphertext haveVers vers buf ≠ .panic := by
+theorem splitD_no_panic (hdrLen maxCiphertext : Nat) (h : 13 ≤ hdrLen) (haveVers : Bool) (vers : Nat) (buf : Bytes)
+    (first : Bool) : splitD hdrLen maxCiphertext haveVers vers buf first ≠ .panic := by
   unfold splitD
   orun
 
